@@ -84,6 +84,46 @@ fn main() {
             }
             std::process::exit(1);
         }
+        "dump" => {
+            // vmc dump <file-with-one-definition> [curve]
+            let src = std::fs::read_to_string(&args[2]).expect("read");
+            let curve = sut::pipe::curve_of(args.get(3).map(|s| s.as_str()).unwrap_or("BN254"));
+            match sut::pipe::lift(&src, &curve) {
+                Ok((cfg, reports)) => {
+                    print!("{}", props::cfgcheck::dump_cfg(&cfg));
+                    println!("parameters: {:?}", cfg.parameters().iter().collect::<Vec<_>>());
+                    let mut decls: Vec<String> = cfg
+                        .declarations()
+                        .iter()
+                        .map(|(n, d)| format!("{n:?}:{}", d.variable_type()))
+                        .collect();
+                    decls.sort();
+                    println!("declarations: {decls:?}");
+                    for b in cfg.iter() {
+                        for s in b.iter() {
+                            println!("  stmt {s:?}  type={:?} value={:?} degree={:?}",
+                                s.meta().type_knowledge().variable_type().map(|t| t.to_string()),
+                                s.meta().value_knowledge().get_reduces_to(),
+                                s.meta().degree_knowledge().degree());
+                        }
+                    }
+                    for r in reports {
+                        println!("cfg report: {} {}", r.id(), r.message());
+                    }
+                    match sut::pipe::run_passes(&cfg) {
+                        Ok(rs) => {
+                            for r in rs {
+                                println!("report: {} [{}] {}", r.id(), r.category(), r.message());
+                            }
+                        }
+                        Err(p) => println!("passes panicked: {}", p.signature()),
+                    }
+                }
+                Err(sut::pipe::LiftError::NotParsed) => println!("not parsed"),
+                Err(sut::pipe::LiftError::Rejected { stage, message }) => println!("rejected at {stage:?}: {message}"),
+                Err(sut::pipe::LiftError::Panic { stage, info }) => println!("panic at {stage:?}: {}", info.signature()),
+            }
+        }
         "count" => {
             // vmc count <max_stmts> <depth> <for> <bare> <block> <empty>
             let a: Vec<usize> = args[2..].iter().map(|s| s.parse().unwrap()).collect();
